@@ -247,7 +247,7 @@ func c11History(c *mon.Ctx, r *mon.Rand) {
 	}
 	rootTags := pool.tagMap(r, 3)
 	rc := rootCfg{Prefix: prefix, Sep: ".", Tags: rootTags}
-	ts := tally.VerifNewTestScope(prefix, copyTagMap(rootTags), uint(r.Range(1, 4)))
+	ts := vNewTest(prefix, copyTagMap(rootTags), uint(r.Range(0, 4)))
 	nsc := r.Range(1, 4)
 	progs := []dprog{{}}
 	for i := 1; i < nsc; i++ {
@@ -410,7 +410,7 @@ func c11History(c *mon.Ctx, r *mon.Rand) {
 
 // c11Concurrent: snapshots taken while single recorders run.
 func c11Concurrent(c *mon.Ctx, r *mon.Rand) {
-	ts := tally.VerifNewTestScope("p", map[string]string{"k": "v"}, uint(r.Range(1, 3)))
+	ts := vNewTest("p", map[string]string{"k": "v"}, uint(r.Range(0, 3)))
 	const W = 3
 	type wstate struct {
 		started, done int64 // counter increments (each +1)
